@@ -362,6 +362,9 @@ func (conv *converter) localDefine(assign *ast.AssignStmt) {
 		}
 		panic(conv.errorf(loc, "only funcs returning bool are supported"))
 	}
+	if typ.Variadic() {
+		panic(conv.errorf(fn.Type.Params, "variadic funcs are not supported"))
+	}
 	if len(fn.Body.List) != 1 {
 		panic(conv.errorf(fn.Body, "only simple 1 return statement funcs are supported"))
 	}
